@@ -343,6 +343,87 @@ fn eval_cli(ctx: &Ctx, case: &Case) -> Verdict {
     Ok(Pass::new().nontrivial(n >= 3 && distinct.len() >= 2).label(if exact { "without-projection" } else { "with-projection" }))
 }
 
+// ---------------------------------------------------------------------------------------------
+// long streams through the binary (block-wise accumulation in the runner would show here)
+
+#[derive(Clone, Debug, Serialize, Deserialize)]
+pub struct LongCase {
+    pub records: usize,
+    pub project: bool,
+    pub seed: u64,
+}
+
+fn eval_long(ctx: &Ctx, case: &LongCase) -> Verdict {
+    let dir = ctx.worker_dir(crate::engine::worker_id());
+    // four samples in two populations; a repeating but irregular pattern of record classes
+    let n_samples = 4;
+    let template = crate::props::c10::fresh_record(n_samples);
+    let records: Vec<Record> = (0..case.records as u64)
+        .map(|i| {
+            let r = crate::engine::splitmix64(case.seed ^ i);
+            let gts = (0..n_samples)
+                .map(|s| {
+                    let v = (r >> (8 * s)) & 0xff;
+                    match v % 32 {
+                        0 => Gt::diploid(None, None, false),
+                        1 => Gt::diploid(Some(0), None, true),
+                        2 => Gt::diploid(Some(1), Some(2), false),
+                        k => Gt::diploid(Some((k & 1) as u8), Some(((k >> 1) & 1) as u8), k & 4 != 0),
+                    }
+                })
+                .collect();
+            Record {
+                contig: (i >= case.records as u64 / 2) as usize,
+                pos: 1 + i % (case.records as u64 / 2 + 1),
+                n_alt: 2,
+                gts,
+                ..template.clone()
+            }
+        })
+        .collect();
+    let cs = CallSet {
+        contigs: vec!["ctgLongA7".into(), "ctgLongB8".into()],
+        samples: (0..n_samples).map(|i| format!("s{i}")).collect(),
+        records,
+    };
+    let map = MapSpec {
+        entries: vec![(0, Some(0)), (1, Some(1)), (2, Some(0)), (3, Some(1))],
+        labels: vec!["A".into(), "B".into()],
+        as_file: false,
+    };
+    let m = if case.project { Some(vec![2usize, 2]) } else { None };
+    let opts = CreateOpts {
+        map: Some(map.clone()),
+        project: m.clone().map(|m| Projection { m, individuals: false }),
+        precision: Some(9),
+        ..Default::default()
+    };
+    let run_on = |records: Vec<Record>, tag: &str| -> Result<Spec, Failure> {
+        let sub = cs.with_records(records);
+        let (run, argv) = run_create(ctx, &dir, tag, &sub, &Container::Vcf, &opts, Transport::Path);
+        let got = cli::expect_spectrum(&run, &format!("`sfs {}` on {} records", argv.join(" "), sub.records.len()))?;
+        Ok(Spec::new(got.shape, got.values))
+    };
+    let n = cs.records.len();
+    let whole = run_on(cs.records.clone(), "c11L")?;
+    let want = create(&cs, &map, m.as_deref());
+    let tol = if case.project { 1e-6 * (1.0 + n as f64 * 1e-3) + whole.values.len() as f64 * 1e-9 * 3.0 } else { 0.0 };
+    ensure!(
+        whole.values.iter().zip(&want.spectrum.values).all(|(a, b)| (a - b).abs() <= tol.max(if case.project { 1e-5 } else { 0.0 })),
+        "{n}-record stream: `create` gives {:?}, the reference model {:?}",
+        whole.values,
+        want.spectrum.values
+    );
+    let split = n / 3;
+    let mut sum = run_on(cs.records[..split].to_vec(), "c11La")?;
+    sum.add(&run_on(cs.records[split..].to_vec(), "c11Lb")?);
+    let close = |a: &Spec, b: &Spec| a.values.iter().zip(&b.values).all(|(x, y)| (x - y).abs() <= if case.project { 1e-5 } else { 0.0 });
+    ensure!(close(&sum, &whole), "{n}-record stream: create(A ++ B) = {:?} but create(A) + create(B) = {:?} (split at {split})", whole.values, sum.values);
+    let reversed = run_on(cs.records.iter().rev().cloned().collect(), "c11Lr")?;
+    ensure!(close(&reversed, &whole), "{n}-record stream: reversing the records changes the spectrum: {:?} vs {:?}", reversed.values, whole.values);
+    Ok(Pass::new().nontrivial(true).label(format!("records={n}")).label(if case.project { "with-projection" } else { "without-projection" }))
+}
+
 pub fn check(ctx: &Ctx) -> Check {
     let parts: Vec<Box<dyn Part>> = vec![
         Box::new(RandomPart {
@@ -358,6 +439,25 @@ pub fn check(ctx: &Ctx) -> Check {
             cases: ctx.tier.pick(600, 15_000),
             strategy: Box::new(|| strategy(14).boxed()),
             eval: Box::new(eval_cli),
+        }),
+        Box::new(crate::engine::EnumPart {
+            name: "cli-long-streams",
+            rule: "streams of 1 025, 2 500, 4 097, 9 000, 20 000 (thorough also 16 385 and 70 000) records over two contigs with a pseudo-random mix of complete / missing / half-missing / multiallelic genotypes, two populations, with and without projection: the whole equals the reference model, create(A++B) == create(A)+create(B), reversal gives the same spectrum (exact without projection); sizes straddle plausible block sizes of an accumulator",
+            exhaustive: false,
+            cases: Box::new(|ctx: &Ctx| {
+                let mut sizes = vec![1025usize, 2500, 4097, 9000, 20_000];
+                if ctx.tier == crate::engine::Tier::Thorough {
+                    sizes.extend([16_385, 70_000]);
+                }
+                let mut v = Vec::new();
+                for (i, n) in sizes.into_iter().enumerate() {
+                    for project in [false, true] {
+                        v.push(LongCase { records: n, project, seed: ctx.seed.wrapping_mul(31).wrapping_add(i as u64) });
+                    }
+                }
+                v
+            }),
+            eval: Box::new(eval_long),
         }),
     ];
     Check {
